@@ -26,7 +26,7 @@ func init() { register(c10{}) }
 func (c10) ID() string    { return "C10" }
 func (c10) Level() string { return "fault_enumeration" }
 func (c10) Rule() string {
-	return "packets of the C01 domain plus malformed-but-constructible ones (QoS 3, no filters, no topic, zero packet id, will QoS 3) x writers: succeeding; re-entrant (the writer encodes other packets inside Write); the caller's own *bufio.Writer, healthy, carrying the error of an earlier failed flush, a *bytes.Buffer used as a queue (earlier output partly read, 0, 1, L-1, L bytes of room at the end), and partly filled (0, 1, L-1, L/2, L bytes free) over a connection that fails on the flush WriteTo triggers; failing before writing (0,E), E being an injected error, a wrapped one, a timeout-class one or one of 15 sentinel errors of io/os/net/syscall/context; one failing writer in three accepts everything after its error; accepting only the first k bytes then (k,E) for EVERY k below the frame length when the frame is <= 256 bytes (boundary and log-spaced k above), and k = frame length (everything accepted, error reported all the same). Offline check of the recorded Write calls: bytes handed to the writer form exactly one frame (reference header parser), returned n = bytes accepted = frame length = 1+|remaining length field|+remaining length = N of String()'s 'N bytes'; with a failing writer the returned error is the writer's (errors.Is) and n the bytes it accepted; Undefined writes nothing and returns an error. distinct = (packet signature, writer script); non-trivial = optional field present or failing writer"
+	return "packets of the C01 domain plus malformed-but-constructible ones (QoS 3, no filters, no topic, zero packet id, will QoS 3) x writers: succeeding; re-entrant (the writer encodes other packets inside Write); the caller's own *bufio.Writer, healthy, carrying the error of an earlier failed flush, a *bytes.Buffer used as a queue (earlier output partly read, 0, 1, L-1, L bytes of room at the end), and partly filled (0, 1, L-1, L/2, L bytes free) over a connection that fails on the flush WriteTo triggers; failing before writing (0,E), E being an injected error, a wrapped one, a timeout-class one or one of 15 sentinel errors of io/os/net/syscall/context; one failing writer in three accepts everything after its error; accepting only the first k bytes then (k,E) for EVERY k below the frame length when the frame is <= 256 bytes (boundary and log-spaced k above), and k = frame length (everything accepted, error reported all the same). Offline check of the recorded Write calls: bytes handed to the writer form exactly one frame (reference header parser), returned n = bytes accepted = frame length = 1+|remaining length field|+remaining length = N of String()'s 'N bytes'; with a failing writer the returned error is the writer's (errors.Is) and n the bytes it accepted; Undefined writes nothing and returns an error. Rewrite phase: one packet value (fresh or decoded) written 2-5 times with 1-4 random setter calls in between (half of them back to zero/empty, so frames grow and shrink): each WriteTo must again hand over exactly one frame of the size returned and printed, whatever the earlier calls left behind; CONNECT packets with a will are also built by setting an earlier will of other QoS/retain first. distinct = (packet signature, writer script); non-trivial = optional field present or failing writer"
 }
 func (c10) Assumptions() []string {
 	return []string{"writers obey io.Writer: a short write comes with a non-nil error", "string fields avoid the substring ' bytes' so that the size printed by String() parses unambiguously"}
@@ -40,7 +40,11 @@ func c10Corpus(env run.Env) corpus {
 }
 
 func (c10) Phases(env run.Env) []run.Phase {
-	return []run.Phase{{Name: "writers", N: c10Corpus(env).N()}, {Name: "undefined", N: 1}}
+	rw := 1500
+	if env.Thorough {
+		rw = 400000
+	}
+	return []run.Phase{{Name: "writers", N: c10Corpus(env).N()}, {Name: "undefined", N: 1}, {Name: "rewrite-after-setters", N: rw}}
 }
 
 var bytesRe = regexp.MustCompile(`(\d+) bytes`)
@@ -79,6 +83,10 @@ func deform(r *gen.RNG, p mq.Packet) string {
 func (c10) Run(c *run.Ctx, phase, idx int) {
 	if phase == 1 {
 		c10Undefined(c)
+		return
+	}
+	if phase == 2 {
+		c10Rewrite(c, rng(c.Env, "C10", phase, idx), idx)
 		return
 	}
 	r := rng(c.Env, "C10", phase, idx)
@@ -429,4 +437,77 @@ func c10Undefined(c *run.Ctx) {
 		}
 	}
 	c.Sample(map[string]interface{}{"packet": "Undefined (zero value and decoded from 01 02 03)", "expect": "no Write call, n=0, non-nil error"})
+}
+
+// c10Rewrite writes one packet value several times with setter calls in
+// between (values growing and shrinking, including back to zero): every
+// WriteTo must hand the writer exactly one frame of the size it returns and
+// String() prints, whatever an earlier WriteTo on the same value left behind
+// (round 10, P3-b: an encode buffer kept between calls).
+func c10Rewrite(c *run.Ctx, r *gen.RNG, idx int) {
+	t := c12Types[idx%len(c12Types)]
+	T := tname(t)
+	pkt, _ := c12Start(r, t, gen.Pick(r, "new", "new", "decoded"))
+	gens := bind.Ops(t)
+	trail := []string{}
+	det := func() map[string]interface{} { return map[string]interface{}{"type": T, "history": trail} }
+	writes := 2 + r.Intn(4)
+	sizes := map[int]bool{}
+	for k := 0; k < writes; k++ {
+		for j, m := 0, r.Intn(4); k > 0 && j <= m; j++ {
+			op := gens[r.Intn(len(gens))].Gen(r, r.Chance(1, 2))
+			trail = append(trail, op.Name+"("+op.Arg+")")
+			if pan := mon.Guard(func() { op.Lib(pkt) }); pan != nil {
+				return // setter panics are C12's business
+			}
+		}
+		trail = append(trail, "WriteTo")
+		c.Current(func() string { return "rewrite/" + T + "/" + strings.Join(trail, ".") })
+		w := mon.NewWriter()
+		var n int64
+		var err error
+		pan := mon.Guard(func() { n, err = pkt.WriteTo(w) })
+		c.Eval(1)
+		if pan != nil {
+			c.Violation("C10/rewrite/panic/"+T+"/"+pan.Where, "WriteTo panicked: "+pan.String(), det())
+			return
+		}
+		if err != nil {
+			c.Violation("C10/rewrite/error-on-good-writer/"+T, fmt.Sprintf("WriteTo #%d returned %v with a writer that accepts everything", k+1, err), det())
+			return
+		}
+		frame := w.Buf
+		d := det()
+		d["written"] = hexClip(frame, 512)
+		h, herr := ref.ParseHeader(frame)
+		switch {
+		case herr != nil:
+			c.Violation("C10/rewrite/not-a-frame/"+T, fmt.Sprintf("WriteTo #%d: bytes written do not start with a fixed header: %v", k+1, herr), d)
+			return
+		case h.Total() != len(frame):
+			c.Violation("C10/rewrite/frame-size/"+T, fmt.Sprintf("WriteTo #%d on the same value: %d bytes written but the header announces a frame of %d bytes", k+1, len(frame), h.Total()), d)
+			return
+		case int(n) != len(frame):
+			c.Violation("C10/rewrite/count/"+T, fmt.Sprintf("WriteTo #%d returned n=%d but %d bytes reached the writer", k+1, n, len(frame)), d)
+			return
+		}
+		var str string
+		if pan := mon.Guard(func() { str = pkt.String() }); pan == nil {
+			c.Eval(1)
+			if ms := bytesRe.FindAllStringSubmatch(str, -1); len(ms) == 1 {
+				if v, _ := strconv.Atoi(ms[0][1]); v != len(frame) {
+					c.Violation("C10/rewrite/string-size/"+T, fmt.Sprintf("after WriteTo #%d String() says %d bytes, WriteTo wrote %d", k+1, v, len(frame)), d)
+					return
+				}
+			} else {
+				c.Count("rewrite", "string-size-ambiguous", 1)
+			}
+		}
+		sizes[len(frame)] = true
+		c.Count("rewrite", fmt.Sprintf("%s/write#%d", T, k+1), 1)
+	}
+	c.Distinct(run.Hash64(append([]string{"rewrite", T}, trail...)...), len(sizes) > 1)
+	if len(sizes) > 1 {
+		c.Count("rewrite", "frame-size-changed-between-writes", 1)
+	}
 }
